@@ -252,6 +252,7 @@ Section Sys.
     let '(st, tr, ids) := s in (do_label st l, l :: tr, ids).
   Definition note (s : sst) (id : N) : sst := let '(st, tr, ids) := s in (st, tr, id :: ids).
   Definition sstate (s : sst) : state := let '(st, _, _) := s in st.
+  Definition strace (s : sst) : list label := let '(_, tr, _) := s in tr.
 
   Fixpoint find_inj (p : nat) (inj : list (nat * list op)) : list op :=
     match inj with
@@ -262,6 +263,7 @@ Section Sys.
   Definition pt_lock := 100.      (* before registry._lock is acquired *)
   Definition pt_unlock := 101.    (* after it was released *)
   Definition pt_get := 102.       (* after the attribute was read, before cache.get *)
+  Definition pt_held := 103.      (* after cache[key] = views, before the lock is released *)
 
   Fixpoint run_op (fuel : nat) (o : op) (s : sst) : sst :=
     match fuel with
@@ -286,6 +288,7 @@ Section Sys.
                              | Query _ => Some q
                              | Lock => Some pt_lock
                              | Get => Some pt_get
+                             | Unlock => Some pt_held
                              | Return => if after_unlock then Some pt_unlock else None
                              | _ => None
                              end in
